@@ -117,6 +117,9 @@ def check_program(prog, fname, *, harness, inst, extra_pre=(), quirks=(), optimi
             if obs:
                 res["sat_replayed"] += 1
                 res["violations"].append(dict(what=f"{what}; {obs}", replay=spec, inputs=vals, observed=obs))
+            elif p.kind == "timeout":
+                res["undecided"] += 1     # the watchdog fired on a slow symbolic path and the concrete run terminates: not a non-termination
+                res.setdefault("notes", []).append("path watchdog fired on a slow symbolic path; the concrete run terminates; not decided")
             elif any(k == "float" for _, _, k in zvars):
                 res["undecided"] += 1     # real-only discrepancy that does not reproduce with doubles
                 res.setdefault("notes", []).append(f"real-only discrepancy not reproduced with doubles: inputs {vals} ({what})")
